@@ -135,13 +135,13 @@ def supplied(ctx, req):
     return False, ctx.vars[name]
 
 
-def make_family(name, existing, reqs):
+def make_family(name, existing, reqs, fault_kinds=None):
     wf = world_fn(existing)
 
     def path(ctx):
         app.setup()
         pre, results, final, sched, writes = conc.run_concurrent(
-            ctx, wf, reqs)
+            ctx, wf, reqs, fault_kinds=fault_kinds)
         ok = [i for i, r in enumerate(results) if r.status < 400]
         sup = {i: supplied(ctx, reqs[i]) for i in range(len(reqs))}
         # (a) among writes carrying the same generation at most one succeeds
@@ -217,6 +217,11 @@ def families(tier):
                     [put(1, 1, 'int'), put(2, 2, 'int')]),
         make_family('existing/put_empty+put', True,
                     [put_empty(1, 'int'), put(2, 2, 'int')]),
+        # a deadlock (the database rolls the transaction back) at a
+        # statement of one writer, retried, while the other writer commits
+        make_family('existing/put+put/deadlock+rollback', True,
+                    [put(1, 1, 'int'), put(2, 2, 'int')],
+                    fault_kinds=('deadlock+rollback',)),
     ]
     if tier == 'thorough':
         fams += [
